@@ -25,7 +25,8 @@ LEVEL = 'translation_validation'
 ASSUMPTIONS = [
     'floats modelled as exact reals ("same minimizer and minimum to rounding" is equality in real arithmetic; rounding outside the claim)',
     'unconstrained problems (no bounds, constraints or penalty), as the property states',
-    'Powell: real step and reference share one line-search oracle: the Brent contract (arbitrary step length alpha with f(alpha) <= f(0)); the k-th line search of both sides uses the same alpha',
+    'Powell: real step and reference share one line-search oracle: the Brent contract (arbitrary step length alpha with f(alpha) <= f(0)); the k-th line search of both sides uses the same alpha; '
+    'the contract is discharged on the vendored bracket()/Brent.optimize for an uninterpreted function within <= 0 (1) bracketing-loop and <= 2 (3) Brent iterations',
     'exponential crossover is read as implemented throughout this code family: the run of mutated positions starts at the random index n and continues while '
     'successive random draws are below CR, at most dim positions (possibly none)',
     'vertices with exactly equal energies may be ordered differently by the two sorts: simplices are compared as multisets of (vertex, energy)',
@@ -270,6 +271,40 @@ def powell_vs_reference(dim, steps):
     return h
 
 
+# ----------------------------------------------------------------------------- the line-search contract itself
+def brent_bracket(maxiter):
+    """the vendored bracket() on an uninterpreted function: the middle point is the best seen and never worse than f(0), f(1)"""
+    def h(ctx):
+        from mystic._scipy060optimize import bracket
+        f = ctx.ufunc('g', 1)
+        F = lambda a: f([a])
+        try:
+            xa, xb, xc, fa, fb, fc, n = bracket(F, maxiter=maxiter)
+        except RuntimeError:
+            return [('bracketing-longer-than-the-unrolling-bound (outside the claim)', const(True))]
+        return [('values-are-the-function-at-the-points', And(eq(fa, f([xa])), eq(fb, f([xb])), eq(fc, f([xc])))),
+                ('middle-not-worse-than-f(0)-and-f(1)', And(le(fb, f([0.0])), le(fb, f([1.0])))),
+                ('middle-is-lowest', And(le(fb, fa), le(fb, fc)))]
+    return h
+
+
+def brent_optimize(maxiter):
+    """Brent.optimize from any valid bracketing triple: returns (xmin, func(xmin)) with func(xmin) <= func(middle)"""
+    def h(ctx):
+        from mystic._scipy060optimize import brent
+        f = ctx.ufunc('g', 1)
+        F = lambda a: f([a])
+        xa, xb, xc = ctx.real('xa'), ctx.real('xb'), ctx.real('xc')
+        ctx.assume(And(lt(xa, xb), lt(xb, xc)))
+        ctx.assume(And(lt(f([xb]), f([xa])), lt(f([xb]), f([xc]))))
+        xmin, fval, it, n = brent(F, brack=(xa, xb, xc), full_output=1, maxiter=maxiter)
+        return [('returned-value-is-the-function-at-the-returned-point', eq(fval, f([xmin]))),
+                ('not-worse-than-the-bracket-middle', le(fval, f([xb]))),
+                ('inside-the-bracket', And(le(xa, xmin), le(xmin, xc))),
+                ('iterations-within-maxiter', const(it <= maxiter))]
+    return h
+
+
 # ----------------------------------------------------------------------------- DE strategies
 ZDELT = (0.05 ** 2) * 0.1      # mystic's zero-coordinate offset (scipy's zdelt = 0.00025, to rounding)
 NEED = {'Best1Exp': 2, 'Best1Bin': 2, 'Rand1Exp': 3, 'RandToBest1Exp': 2, 'Best2Exp': 4, 'Rand2Exp': 5, 'Rand1Bin': 3, 'RandToBest1Bin': 2,
@@ -381,6 +416,10 @@ def instances(tier, seed):
         out.append(Instance('powell/iterations-vs-scipy-fmin_powell/dim=%d/steps=3' % dim, powell_vs_reference(dim, 3), qtimeout=6000))
     if not q:
         out.append(Instance('powell/iterations-vs-scipy-fmin_powell/dim=1/steps=4', powell_vs_reference(1, 4), qtimeout=20000))
+    for mi in ((0,) if q else (0, 1)):
+        out.append(Instance('brent-contract/bracket/maxiter=%d' % mi, brent_bracket(mi), qtimeout=2000))
+    for mi in ((0, 1, 2) if q else (0, 1, 2, 3)):
+        out.append(Instance('brent-contract/optimize/maxiter=%d' % mi, brent_optimize(mi), qtimeout=4000))
     for name in NEED:
         for dim in ((1, 2) if q else (1, 2, 3)):
             for two in ((False,) if (q and dim == 2) else (False, True)):
